@@ -655,3 +655,52 @@ func (g *stackGen) shaped(sh stackShape) (*hcell, string) {
 	}
 	return stackCell(vals, declared), desc
 }
+
+// ---------------------------------------------------------------- dns_adnl_address written from block.tlb
+//
+//	dns_adnl_address#ad01 adnl_addr:bits256 flags:(## 8) { flags <= 1 } proto_list:flags . 0?ProtoList = DNSRecord;
+//	proto_list_nil$0 = ProtoList; proto_list_next$1 head:Protocol tail:ProtoList = ProtoList; proto_http#4854 = Protocol;
+
+type dnsCase struct {
+	cell *hcell
+	desc string
+	seed bool
+}
+
+// dnsAdnlRecords: flags 0..3, protocol lists of 0..3 entries with the known and with unknown protocol tags (with
+// and without the list the flags announce), each record whole and cut after every bit behind the address.
+func dnsAdnlRecords(r *mon.Rng) []dnsCase {
+	tags := []uint64{0x4854, 0x0000, 0x4855, 0xffff}
+	var out []dnsCase
+	for flags := 0; flags < 4; flags++ {
+		for n := 0; n <= 3; n++ {
+			combos := 1
+			for i := 0; i < n; i++ {
+				combos *= len(tags)
+			}
+			for combo := 0; combo < combos; combo++ {
+				if n == 3 && combo%5 != 0 {
+					continue
+				}
+				bits := append(uintBits(0xad01, 16), r.Bits(256)...)
+				bits = append(bits, uintBits(uint64(flags), 8)...)
+				x := combo
+				desc := fmt.Sprintf("flags=%d list=", flags)
+				for i := 0; i < n; i++ {
+					t := tags[x%len(tags)]
+					x /= len(tags)
+					bits = append(append(bits, true), uintBits(t, 16)...)
+					desc += fmt.Sprintf("%04x,", t)
+				}
+				bits = append(bits, false)
+				out = append(out, dnsCase{&hcell{bits: bits}, desc, n <= 1 && combo <= 1})
+				for cut := 272; cut < len(bits); cut++ {
+					out = append(out, dnsCase{&hcell{bits: append([]bool(nil), bits[:cut]...)}, fmt.Sprintf("%s cut at bit %d", desc, cut), false})
+				}
+				// the list is missing although the flags announce it / followed by stray bits
+				out = append(out, dnsCase{&hcell{bits: append(append([]bool(nil), bits...), r.Bits(r.Intn(40))...)}, desc + " +stray bits", false})
+			}
+		}
+	}
+	return out
+}
